@@ -217,14 +217,36 @@ func c19GenProducer(g *Gen) {
 			ticks[i] = sizedTick(r, thr, false)
 		}
 	}
-	if r.Chance(20) {
+	// how the stream ends: Finish() in a call of its own, Finish() in the SAME call as the last
+	// (possibly uploaded) data batch, or the script just runs out
+	lastWithFinish := false
+	switch r.Intn(10) {
+	case 0, 1:
 		ticks = append(ticks, "f1")
+	case 2, 3, 4, 5:
+		big := Pick(r, []int{thr / 8, thr/8 + 1, thr / 4, 120, 600})
+		if big < 1 {
+			big = 1
+		}
+		t := fmt.Sprintf("e1:n%dx%d:", big, r.Range(1, 9))
+		if r.Chance(30) {
+			t = fmt.Sprintf("l%d;", r.Intn(50)) + t
+		}
+		ticks = append(ticks, t+";f1")
+		lastWithFinish = true
 	}
 	prog := strings.Join(ticks, "/")
 	drainable := r.Chance(45) // external cap off everywhere: the drain theorem applies
+	if lastWithFinish && ext {
+		drainable = r.Chance(15)
+	}
 	ecap := func(up int) string {
 		if drainable {
 			return "e0"
+		}
+		if lastWithFinish && ext && r.Chance(60) {
+			// aim at the pre-flight of the final upload (the one made in the finishing call)
+			return fmt.Sprintf("e%s0:%d", Pick(r, []string{"^", "^", "~"}), Pick(r, capOffsets))
 		}
 		return extCap(r, ext, up)
 	}
@@ -257,6 +279,18 @@ func c19GenExhaustive(g *Gen) {
 					fmt.Sprintf("init 0 pr ok %s w~%d:%d e0", prog, k, d),
 					fmt.Sprintf("x 0 pr empty c %s=T0 %s=C0 w~1:%d e0", hx(fwKeyState), hx(fwKeyCall), d),
 					"drain T0 w"+fmt.Sprint(200+100*k+d))
+			}
+		}
+	}
+	finProg := "e1:n40x1:/l1;e1:n40x2:/e1:n40x3:;f1"
+	for _, limit := range []int{0, 2} {
+		for _, form := range []string{"^", "~"} {
+			for k := 0; k <= 3; k++ {
+				for _, d := range []int{-1, 0, 1} {
+					g.Case(fmt.Sprintf("cfg cache=1 limit=%d ext=1 thr=64 zstd=0", limit),
+						fmt.Sprintf("init 0 pr ok %s w0 e%s%d:%d", finProg, form, k, d),
+						fmt.Sprintf("x 0 pr empty c %s=T0 %s=C0 w0 e%s0:%d", hx(fwKeyState), hx(fwKeyCall), form, d))
+				}
 			}
 		}
 	}
